@@ -520,7 +520,7 @@ func vC18SdRunCase(cs *vC18SdCase, leaked map[string]bool, watchdog time.Duratio
 		switch {
 		case len(rSelf) > 0:
 			// ready() -> Shutdown() -> wg.Wait() in the goroutine the WaitGroup itself counts
-			return "deadlock:cluster.go:ready>Shutdown~self", strings.Join(rSelf, "\n\n")
+			return "deadlock:cluster.go:ready~Shutdown~self", strings.Join(rSelf, "\n\n")
 		case len(sdWait) > 0 && len(wLock) > 0:
 			return "deadlock:cluster.go:Shutdown~watchPeers", strings.Join(append(sdWait, wLock...), "\n\n")
 		case len(sdWait) > 0 && len(rLock) > 0:
